@@ -164,7 +164,10 @@ def split_ranges(intsize, step, start, end):
         nextstart = (start + diff if haslower else start) & not_mask
         nextend = (end - diff if hasupper else end) & not_mask
 
-        if shift + step >= intsize or nextstart > nextend:
+        # The next tier can't be used if its bounds crossed or wrapped around
+        # (the end of a range in the lowest block steps below zero)
+        if (shift + step >= intsize or nextstart > nextend
+            or nextstart < start or nextend > end):
             yield (start, setbits(end), shift)
             break
 
